@@ -712,7 +712,7 @@ impl Prop for C25 {
         "seeded schemas (2-5 vertex types; 0-3 interfaces with transitively closed implements clauses incl. diamonds; declared and inherited properties of assorted scalar types; edges with 0-3 parameters, each with or without a default, nullable or not, defaults differing between an interface and its implementers); per schema: the honest adapter plus EVERY single fault = (resolver kind) x (every (type, field) point incl. __typename on every type, every edge covered or not, every (interface, implementer) pair, plus a few non-points) x (wrong payload | dropped | duplicated | swapped context | fresh context). Non-trivial: the honest adapter, every fault at a point the doc comment covers (must be rejected), every fault at an edge with a required parameter (documented blind spot, must be accepted). Faults at non-points are trivial."
     }
     fn generate(&self, tier: Tier, rng: &mut Rng) -> Vec<Case> {
-        let n_schemas = if tier == Tier::Quick { 12 } else { 120 };
+        let n_schemas = if tier == Tier::Quick { 25 } else { 400 };
         let mut out = vec![];
         for _ in 0..n_schemas {
             let types = gen_schema(rng);
